@@ -103,3 +103,57 @@ package metrics
 //@     assert [end-offset-is-start-plus-bytes-written] arg0 == startOff + ghost(0, "tagBytes")
 //@     ghostset ghost(0, "tagBytes") = 0
 //@ end
+
+// C08 (every ingested datapoint comes back under its own series and under no
+// other): a metrics block is flushed from sortedTsids (the TSIDs to write),
+// tsidLookup (TSID -> index into allSeries) and allSeries.  FlushTSOAndTSGFiles
+// looks a TSID up without checking for a miss, so a TSID left over in
+// sortedTsids from an earlier block is written with allSeries[0]'s datapoints.
+// After a successful rotation the next block therefore starts EMPTY in all
+// three (and in its size counter), with a fresh time range and the next block
+// number.  The erase loop is proved with the visited-set rule (an exhausted
+// range has produced every key present in the map).
+//@ func (*MetricsBlock).flushBlock
+//@   assumed
+//@   preserves mb.mBlockSummary, mb.mBlockSummary.Blknum, mb.tsidLookup
+//@   note frame only (ASSUMED): writing the block's files does not renumber the block or replace its look-up map
+//@ end
+//@ func (*MetricsBlock).cleanAndInitNewDpWal
+//@   assumed
+//@   modifies fieldsof(dpWalState), fieldsof(wal.Wal), allbytes
+//@   note frame only (ASSUMED): touches the datapoint WAL state of the block and nothing else of the block
+//@ end
+//@ func (*MetricsBlock).rotateBlock
+//@   props C08
+//@   requires mb != nil
+//@   loop 1:
+//@     invariant [same-map] mb.tsidLookup == old(mb.tsidLookup)
+//@     invariant [same-number] mb.mBlockSummary.Blknum == old(mb.mBlockSummary.Blknum)
+//@     invariant [visited-keys-are-gone] forallkey(k, uint64, implies(visited(1, k), !haskey(mb.tsidLookup, k)))
+//@   ensures [next-block-starts-with-no-series] implies(result == nil, len(mb.allSeries) == 0 && len(mb.sortedTsids) == 0 && mb.blkEncodedSize == 0)
+//@   ensures [next-block-starts-with-an-empty-lookup] implies(result == nil, forallkey(k, uint64, !haskey(mb.tsidLookup, k)))
+//@   ensures [next-block-summary-is-fresh] implies(result == nil, mb.mBlockSummary.HighTs == 0 && mb.mBlockSummary.LowTs == math.MaxInt32 && mb.mBlockSummary.Blknum == old(mb.mBlockSummary.Blknum) + 1)
+//@ end
+
+// C10 (recovery yields what was written, nothing else): the metric names seen
+// but not yet appended to the segment's name WAL wait in
+// mNameWalState.metricsNames; the periodic flush appends that list to whatever
+// name WAL is current.  When a segment rotates, its names are already in its
+// .mnm file and its name WAL is deleted, so the pending list must be EMPTY
+// before the next segment's WAL exists — on every path, forced rotation or not
+// — or a crash would replay names of segment S into segment S+1.
+//@ func (*MetricsSegment).deleteMNameWALFile
+//@   assumed
+//@   modifies fieldsof(wal.Wal), allbytes
+//@   note frame only (ASSUMED): deletes the file of the current name WAL
+//@ end
+//@ func (*MetricsSegment).initNewMNameWAL
+//@   assumed
+//@   modifies mb.mNameWalState.wal, fieldsof(wal.Wal), allbytes
+//@   note frame only (ASSUMED): installs a new name WAL; does not touch the pending list
+//@ end
+//@ func (*MetricsSegment).cleanAndInitNewMNameWal
+//@   props C10
+//@   requires ms != nil
+//@   ensures [no-pending-name-crosses-a-rotation] len(ms.mNameWalState.metricsNames) == 0
+//@ end
